@@ -132,10 +132,26 @@ func main() {
 	}
 	runThresholds(f, res, r.Fork(1000003), drv, nil)
 	runLead(res, drv)
+	runNilValueLead(res)
 	drv.Close()
+
+	// trace validation of the real consensus/driver (real time, a few seconds, in the background)
+	var dwg sync.WaitGroup
+	for k := 0; k < f.Scale(6, 40); k++ {
+		dwg.Add(1)
+		go func(k int) {
+			defer dwg.Done()
+			runDriverTrace(res, r.Fork(uint64(7000000+k)), k)
+		}(k)
+		if k%8 == 7 {
+			dwg.Wait()
+		}
+	}
 
 	nSim := f.Scale(16000, 120000)
 	nFuzz := f.Scale(10000, 80000)
+	exP, exN := exhaustiveCount()
+	nEx := exP * exN
 	workers := max(4, min(14, runtime.NumCPU()-2))
 	var wg sync.WaitGroup
 	var mu sync.Mutex
@@ -220,9 +236,14 @@ func main() {
 					s := genScenario(r.Fork(uint64(j)), f.Thorough())
 					s.run()
 					it.sc, it.w, it.label = s.sc, s.w, s.label
-				} else {
+				} else if j < nSim+nFuzz {
 					it.mode = "fuzz"
 					it.sc, it.w = genFuzz(r.Fork(uint64(j)), f.Thorough())
+				} else {
+					it.mode = "exhaustive"
+					e := j - nSim - nFuzz
+					it.sc = exhaustiveScenario(e/exN, e%exN)
+					it.w = Replay(it.sc)
 				}
 				batch = append(batch, it)
 				if len(batch) >= 64 {
@@ -233,11 +254,12 @@ func main() {
 			flush(batch)
 		}()
 	}
-	for j := 0; j < nSim+nFuzz; j++ {
+	for j := 0; j < nSim+nFuzz+nEx; j++ {
 		jobs <- j
 	}
 	close(jobs)
 	wg.Wait()
+	dwg.Wait()
 	for k, v := range agg {
 		res.HitN(k, v)
 	}
@@ -274,7 +296,7 @@ func runReplay(f lib.Flags, res *lib.Result) {
 			return
 		}
 		runThresholds(f, res, lib.NewRNG(1), drv, []uint64{n})
-	case "sim", "fuzz":
+	case "sim", "fuzz", "exhaustive":
 		if body.Scenario == nil {
 			res.Note("replay: no scenario")
 			return
